@@ -14,6 +14,7 @@ pub fn replay_file(path: &str) -> i32 {
     crate::history::assert_layout();
     crate::shadow::install();
     crate::outcome::silence_panics();
+    let _ = crate::statics::pool();
     let Ok(bytes) = std::fs::read(path) else {
         eprintln!("cannot read {path}");
         return 2;
